@@ -30,6 +30,7 @@
 #include "theta_a_not_b.hpp"
 #include "tuple_union.hpp"
 #include "tuple_intersection.hpp"
+#include "array_of_doubles_sketch.hpp"
 #undef private
 #undef protected
 
@@ -472,6 +473,116 @@ struct TpiObj : ObjBase<TpiObj, tpi_t> {
   uint64_t digest() const override { if (!s.has_result()) return 0; auto r = s.get_result(true); auto b = r.serialize(0, ItemSerde()); return fnv(b.data(), b.size()); }
 };
 
+// ---- 23..28: array_of_doubles family (tuple sketches whose summary owns a heap block) -----------------------
+// 23: the summary type itself, datasketches::array<double, A>: a hand-managed buffer with its own copy / move / assignment
+typedef array<double, talloc<double>> arr_t;
+struct ArrObj : ObjBase<ArrObj, arr_t> {
+  using ObjBase::ObjBase;
+  int kind() const override { return 23; }
+  // an array that was moved from keeps its size but holds no buffer: element access is not defined for it
+  void update(int64_t v, int64_t w, bool, Out&) override { if (s.size() == 0 || s.data() == nullptr) throw unsupported(); s[(size_t)((uint64_t)v % s.size())] += (double)w; }
+  long retained() const override { return s.data() == nullptr ? 0 : (long)s.size(); }
+  void query() override { if (s.data() != nullptr) { arr_t c(s); if (!(c == s)) throw std::logic_error("copy differs"); } }
+  uint64_t digest() const override { const uint8_t n = s.size(); uint64_t h = fnv(&n, 1); return s.data() == nullptr ? h : fnv((const uint8_t*)s.data(), sizeof(double) * n, h); }
+};
+
+typedef default_array_tuple_update_policy<arr_t> aup_t;
+typedef update_array_tuple_sketch<arr_t> uad_t;
+typedef compact_array_tuple_sketch<arr_t> cad_t;
+struct CadObj : ObjBase<CadObj, cad_t> {
+  using ObjBase::ObjBase;
+  int kind() const override { return 25; }
+  void update(int64_t, int64_t, bool, Out&) override { throw unsupported(); }
+  long retained() const override { return (long)s.get_num_retained(); }
+  void query() override { (void)s.get_estimate(); double c = 0; for (const auto& e: s) { for (uint8_t i = 0; i < s.get_num_values(); ++i) c += e.second[i]; } (void)c; }
+  uint64_t digest() const override { auto b = s.serialize(); return fnv(b.data(), b.size()); }
+  Obj* roundtrip() const override { auto b = s.serialize(); return new CadObj(cad_t::deserialize(b.data(), b.size(), DEFAULT_SEED, s.get_allocator())); }
+};
+struct UadObj : ObjBase<UadObj, uad_t> {
+  using ObjBase::ObjBase;
+  int kind() const override { return 24; }
+  void update(int64_t v, int64_t w, bool, Out&) override {
+    std::vector<double> a(s.get_num_values()); for (size_t i = 0; i < a.size(); ++i) a[i] = (double)(w + (int64_t)i);
+    s.update((uint64_t)v, a);
+  }
+  void reset() override { s.reset(); }
+  void trim() override { s.trim(); }
+  long retained() const override { return (long)s.get_num_retained(); }
+  void query() override { (void)s.get_estimate(); double c = 0; for (const auto& e: s) { for (uint8_t i = 0; i < s.get_num_values(); ++i) c += e.second[i]; } (void)c; }
+  uint64_t digest() const override { auto c = s.compact(true); auto b = c.serialize(); return fnv(b.data(), b.size()); }
+  Obj* result(long arg) const override { return new CadObj(s.compact((arg & 1) == 0)); }
+};
+
+// the set operations take update and compact sketches, by reference and by rvalue
+#define VL_AD_DISPATCH(o, fn) \
+  do { if (const UadObj* p_ = dynamic_cast<const UadObj*>(&(o))) fn(p_->s); \
+       else if (const CadObj* q_ = dynamic_cast<const CadObj*>(&(o))) fn(q_->s); \
+       else throw std::invalid_argument("kind mismatch"); } while (0)
+#define VL_AD_DISPATCH_MOVE(o, fn) \
+  do { if (UadObj* p_ = dynamic_cast<UadObj*>(&(o))) fn(std::move(p_->s)); \
+       else if (CadObj* q_ = dynamic_cast<CadObj*>(&(o))) fn(std::move(q_->s)); \
+       else throw std::invalid_argument("kind mismatch"); } while (0)
+inline uint8_t ad_num_values(const Obj& o) {
+  if (const UadObj* p = dynamic_cast<const UadObj*>(&o)) return p->s.get_num_values();
+  if (const CadObj* q = dynamic_cast<const CadObj*>(&o)) return q->s.get_num_values();
+  throw std::invalid_argument("kind mismatch");
+}
+
+typedef array_tuple_union<arr_t> adu_t;
+struct AduObj : ObjBase<AduObj, adu_t> {
+  using ObjBase::ObjBase;
+  int kind() const override { return 26; }
+  uint8_t nv() const { return s.state_.get_policy().get_external_policy().get_num_values(); }
+  template<typename X> void feed(X&& x) { s.update(std::forward<X>(x)); }
+  void update(int64_t, int64_t, bool, Out&) override { throw unsupported(); }
+  // the union policy reads num_values doubles of each incoming summary without a check: the harness refuses a mismatch
+  void merge(const Obj& o) override { if (ad_num_values(o) != nv()) throw std::invalid_argument("num_values mismatch"); VL_AD_DISPATCH(o, feed); }
+  void merge_move(Obj& o) override { if (ad_num_values(o) != nv()) throw std::invalid_argument("num_values mismatch"); VL_AD_DISPATCH_MOVE(o, feed); }
+  void reset() override { s.reset(); }
+  long retained() const override { return 0; }
+  uint64_t digest() const override { auto r = s.get_result(true); auto b = r.serialize(); return fnv(b.data(), b.size()); }
+  Obj* result(long arg) const override { return new CadObj(s.get_result((arg & 1) == 0)); }
+};
+
+struct ArrIsectPolicy {
+  uint8_t n;
+  explicit ArrIsectPolicy(uint8_t n = 1): n(n) {}
+  void operator()(arr_t& a, const arr_t& b) const { for (uint8_t i = 0; i < n; ++i) a[i] += b[i]; }
+  uint8_t get_num_values() const { return n; }
+};
+typedef array_tuple_intersection<arr_t, ArrIsectPolicy> adi_t;
+struct AdiObj : ObjBase<AdiObj, adi_t> {
+  using ObjBase::ObjBase;
+  int kind() const override { return 27; }
+  uint8_t nv() const { return s.state_.get_policy().get_external_policy().get_num_values(); }
+  template<typename X> void feed(X&& x) { s.update(std::forward<X>(x)); }
+  void update(int64_t, int64_t, bool, Out&) override { throw unsupported(); }
+  void merge(const Obj& o) override { if (ad_num_values(o) != nv()) throw std::invalid_argument("num_values mismatch"); VL_AD_DISPATCH(o, feed); }
+  void merge_move(Obj& o) override { if (ad_num_values(o) != nv()) throw std::invalid_argument("num_values mismatch"); VL_AD_DISPATCH_MOVE(o, feed); }
+  long retained() const override { return (long)s.has_result(); }
+  uint64_t digest() const override { if (!s.has_result()) return 0; auto r = s.get_result(true); auto b = r.serialize(); return fnv(b.data(), b.size()); }
+  Obj* result(long arg) const override { if (!s.has_result()) throw unsupported(); return new CadObj(s.get_result((arg & 1) == 0)); }
+};
+
+// stateless operator: merge(o) computes o \ (o compacted) both ways; the by-move form passes A as an rvalue against an empty B
+typedef array_tuple_a_not_b<arr_t> ada_t;
+struct AdaObj : ObjBase<AdaObj, ada_t> {
+  using ObjBase::ObjBase;
+  uint64_t last = 0;
+  int kind() const override { return 28; }
+  template<typename X> void diff(const X& x) {
+    cad_t c(x, false); auto r = s.compute(x, c, true); auto r2 = s.compute(c, x, false); auto b = r.serialize(); last = fnv(b.data(), b.size()) ^ r2.get_num_retained(); }
+  template<typename X> void diff_move(X&& x) {
+    cad_t c(x, true); talloc<double> al(x.get_allocator()); uad_t::builder bb{aup_t(x.get_num_values(), al), al}; uad_t e = bb.build();
+    auto r = s.compute(std::move(x), e.compact(), true); auto b = r.serialize(); auto b0 = c.serialize(); last = fnv(b.data(), b.size());
+    if (b.size() != b0.size() || !std::equal(b.begin(), b.end(), b0.begin())) throw std::logic_error("A-not-empty differs from A"); }
+  void update(int64_t, int64_t, bool, Out&) override { throw unsupported(); }
+  void merge(const Obj& o) override { VL_AD_DISPATCH(o, diff); }
+  void merge_move(Obj& o) override { VL_AD_DISPATCH_MOVE(o, diff_move); }
+  long retained() const override { return 0; }
+  uint64_t digest() const override { return 0; }
+};
+
 // factory: kind, two parameters, arena
 inline Obj* make(int kind, long p1, long p2, int arena) {
   // parameters that do not fit the constructor argument types are refused here (no silent truncation);
@@ -483,6 +594,8 @@ inline Obj* make(int kind, long p1, long p2, int arena) {
   if ((kind == 1 || kind == 9 || kind == 4 || kind == 17 || kind == 21) && p2 > 3) throw std::invalid_argument("parameter out of range");
   if (kind == 7 && p2 > 2) throw std::invalid_argument("parameter out of range");
   if (kind == 3 && (p1 < 4 || p1 > 255 || (p1 & 1) || p2 > 1)) throw std::invalid_argument("parameter out of range");   // req rounds k silently
+  if (kind >= 23 && kind <= 28 && p1 > 255) throw std::invalid_argument("parameter out of range");
+  if (kind >= 24 && kind <= 26 && (p1 < 5 || p1 > 26)) throw std::invalid_argument("parameter out of range");
   if (kind == 4 && p1 < 1) throw std::invalid_argument("parameter out of range");
   switch (kind) {
   case 0: return new KllObj((uint16_t)p1, std::less<Item>(), talloc<Item>(arena));
@@ -512,6 +625,12 @@ inline Obj* make(int kind, long p1, long p2, int arena) {
   case 19: return new TaObj(DEFAULT_SEED, talloc<uint64_t>(arena));
   case 21: { tpu_t::builder b{TupUnionPolicy(), talloc<Item>(arena)}; b.set_lg_k((uint8_t)p1); b.set_resize_factor((tpu_t::resize_factor)p2); return new TpuObj(b.build()); }
   case 22: return new TpiObj(DEFAULT_SEED, TupUnionPolicy(), talloc<Item>(arena));
+  case 23: return new ArrObj((uint8_t)p1, 0.0, talloc<double>(arena));
+  case 24: { uad_t::builder b{aup_t((uint8_t)p2, talloc<double>(arena)), talloc<double>(arena)}; b.set_lg_k((uint8_t)p1); return new UadObj(b.build()); }
+  case 25: { uad_t::builder b{aup_t((uint8_t)p2, talloc<double>(arena)), talloc<double>(arena)}; b.set_lg_k((uint8_t)p1); return new CadObj(b.build().compact()); }
+  case 26: { adu_t::builder b{default_array_tuple_union_policy<arr_t>((uint8_t)p2), talloc<double>(arena)}; b.set_lg_k((uint8_t)p1); return new AduObj(b.build()); }
+  case 27: return new AdiObj(DEFAULT_SEED, ArrIsectPolicy((uint8_t)p2), talloc<double>(arena));
+  case 28: return new AdaObj(DEFAULT_SEED, talloc<double>(arena));
   default: throw std::invalid_argument("unknown kind");
   }
 }
